@@ -42,6 +42,8 @@ type Config struct {
 	// Hot (rollback-journal mode): an application died in the middle of a transaction before the race starts: pages
 	// already overwritten in the file, a valid journal next to it. The export has to roll it back first.
 	Hot bool `json:"hot,omitempty"`
+	// Unwritten (WAL): the second transaction grows the database by a page it never writes.
+	Unwritten bool `json:"unwritten,omitempty"`
 }
 
 type pos [2]uint64
@@ -211,6 +213,11 @@ func harness(cfgJSON json.RawMessage) sched.Harness {
 					tx := pager.WTx{Frames: []uint32{1, 2, 3}, Outcome: "commit"}
 					if i == 1 {
 						tx = pager.WTx{Frames: []uint32{1, cur.N() + 1}, Outcome: "commit"}
+						if cfg.Unwritten {
+							// growth by two pages of which only the second gets a frame (the first is a free-list leaf allocated and
+							// freed again): until a checkpoint extends the file that page is neither in the log nor in the file
+							tx = pager.WTx{Frames: []uint32{1, cur.N() + 2}, NewSize: cur.N() + 2, FreeLeaves: true, Outcome: "commit"}
+						}
 						if cfg.Shrink {
 							tx = pager.WTx{Frames: []uint32{1}, NewSize: cur.N() - 1, Outcome: "commit"}
 						}
@@ -361,6 +368,7 @@ func TestCheck(t *testing.T) {
 		{WAL: true, Op: "export", Ckpt: true, NoPrior: true},
 		{WAL: false, Op: "export", Hot: true},
 		{WAL: true, Op: "export", Hot: true, Recover: true},
+		{WAL: true, Op: "export", Ckpt: true, Unwritten: true},
 	}
 	jobBudget := 60 * time.Second
 	if run.Thorough() {
